@@ -968,6 +968,13 @@ def _outcome(r):
     return 'returns' if r.ok else 'raises ' + r.exc.cls
 
 
+def _first_idx(a, b):
+    for i in range(max(len(a), len(b))):
+        if i >= len(a) or i >= len(b) or a[i] != b[i]:
+            return i
+    return None
+
+
 def rule_r9(repo):
     """Concrete compile / replay differential (rules/pipeline.py): every template of the end-to-end family, and a family of templates
     whose *data* are inconsistent with the template (more marker operators / quality values than the bitmap has zero bits, a bitmap
@@ -1018,7 +1025,7 @@ def rule_r9(repo):
                            ('values', st1.fields['decoded_values_all_subsets'][0], st2.fields['decoded_values_all_subsets'][0]),
                            ('links', st1.fields['bitmap_links_all_subsets'][0], st2.fields['bitmap_links_all_subsets'][0])):
             if a != b:
-                k = first_difference(list(a.items()) if isinstance(a, dict) else a, list(b.items()) if isinstance(b, dict) else b)
+                k = _first_idx(list(a.items()) if isinstance(a, dict) else a, list(b.items()) if isinstance(b, dict) else b)
                 rr.fail('concrete:%s:%s' % (name, what), fi.where, '%s: %s differ at position %s: plain %r, compiled %r' % (
                     name, what, k, (list(a.items()) if isinstance(a, dict) else a)[k:k + 2] if k is not None else a, (list(b.items()) if isinstance(b, dict) else b)[k:k + 2] if k is not None else b),
                     witness={'template': name})
@@ -1033,7 +1040,7 @@ def rule_r9(repo):
         e2 = P.replay(repo, stmts, est, w2, coder='Encoder')
         rr.instance('encoder: %s' % name)
         if e1.ok != e2.ok or (not e1.ok and e1.exc.cls != e2.exc.cls) or (e1.ok and w1.log != w2.log):
-            k = first_difference(w1.log, w2.log)
+            k = _first_idx(w1.log, w2.log)
             rr.fail('concrete:%s:encoder' % name, fi.where, '%s: the plain encoder %s and writes %d fields, the compiled template %s and writes %d fields; first difference at '
                     'field %s: %r / %r' % (name, _outcome(e1), len(w1.log), _outcome(e2), len(w2.log), k, w1.log[k:k + 1] if k is not None else None,
                                            w2.log[k:k + 1] if k is not None else None), witness={'template': name})
